@@ -4,6 +4,10 @@ from ..engines import expandverified as X
 
 
 def run(ctx):
+    # language-level slips in the modules the property is anchored in (engine Y)
+    from ..engines import gotchas as GY
+    GY.run(ctx, ('specification', 'rule_db.forest', 'comb_spec_searcher'))
+    ctx.floor("Y", 1)
     ctx.extra["explanation"] = (
         "static analysis (ast, no execution) of expand_verified / expand_comb_class and of the "
         "searcher's handling of verified labels: the only exit of expand_verified is the exhaustion "
